@@ -127,10 +127,17 @@ func main() {
 		{{"Accept-Encoding", "gzip"}}, {{"Accept", "application/json"}}, {{"Accept", "image/png;q=1, */*;q=0"}},
 		{{"Cache-Control", "only-if-cached"}}, {{"Content-Type", "application/json"}}, {{"X-Forwarded-For", "1.2.3.4"}},
 		{{"Authorization", "Bearer x"}}, {{"Cookie", "a=b"}}, {{"Origin", "https://o.example"}, {"Access-Control-Request-Method", "GET"}},
+		// HTTP/1.1 only: Connection options, also ones that nominate the User-Agent field itself as hop-by-hop (after seeded change
+		// C15-N, which removed Connection-nominated fields from the inbound request before the probe test)
+		// (no "close" option: the cases of a batch share a keep-alive connection)
+		{{"Connection", "keep-alive, User-Agent"}}, {{"Connection", "user-agent"}}, {{"Connection", "keep-alive, X-Whatever, USER-AGENT"}, {"X-Whatever", "1"}}, {{"Connection", "X-Whatever"}, {"X-Whatever", "kube-probe/9"}},
 	}
 	for _, flag := range []string{"on", "default"} {
 		for _, proto := range []string{"http/1.1", "h2"} {
 			for ei, ex := range extras {
+				if proto == "h2" && ex[0][0] == "Connection" {
+					continue // connection-specific fields are malformed in HTTP/2
+				}
 				for _, m := range []string{"GET", "HEAD", "POST", "OPTIONS"} {
 					hs := [][2]string{{"User-Agent", "kube-probe/1.30"}}
 					if ei%2 == 1 {
